@@ -999,6 +999,59 @@ private:
     return true;
   }
 
+  // The meet closes the relational part of the graph (SplitOctGraph
+  // skips the edges between pos(v) and neg(v)) but the bounds were
+  // never recovered afterwards: {x=1, 0<=y<=3} & {y-x<=1} kept y<=3.
+  void recover_bounds_after_meet() {
+    if (is_bottom()) {
+      return;
+    }
+    wt_ref_t w;
+    // (1) bounds implied by two relational edges over the same pair of
+    // variables (x-y<=a, x+y<=b ==> 2x<=a+b)
+    edge_vector rel;
+    {
+      split_octagons_impl::SplitOctGraph<graph_t> g_oct(m_graph);
+      for (vert_id s : g_oct.verts()) {
+        for (auto e : g_oct.e_succs(s)) {
+          rel.push_back({{s, e.vert}, e.val});
+        }
+      }
+    }
+    for (auto e : rel) {
+      edge_vector bounds_delta;
+      update_bounds(m_graph, e.first.first, e.first.second, e.second,
+                    bounds_delta);
+      if (!update_delta(m_graph, m_potential, bounds_delta)) {
+        set_to_bottom();
+        return;
+      }
+    }
+    integer_tightening();
+    // (2) each bound is propagated through the (closed) relational edges
+    std::vector<vert_id> pos_verts;
+    for (vert_id v : m_graph.verts()) {
+      if (v % 2 == 0) {
+        pos_verts.push_back(v);
+      }
+    }
+    for (vert_id v : pos_verts) {
+      if (m_graph.lookup(v, v + 1, w)) {
+        Wt k = w.get();
+        if (!update_bounds_lb(v, k)) {
+          return;
+        }
+      }
+      if (m_graph.lookup(v + 1, v, w)) {
+        Wt k = w.get();
+        if (!update_bounds_ub(v, k)) {
+          return;
+        }
+      }
+    }
+    integer_tightening();
+  }
+
   // Update bounds after adding an edge from i to j with weight c.
   void update_bounds(graph_t &g, vert_id i, vert_id j, Wt c,
                      edge_vector &delta) {
@@ -2693,6 +2746,7 @@ public:
 	  split_oct_domain_t res(std::move(meet_verts), std::move(meet_rev),
 				 std::move(meet_g), std::move(meet_pi),
 				 vert_set_t());
+	  res.recover_bounds_after_meet();
 	  
 	  CRAB_LOG("octagon", crab::outs() << "Result meet:\n" << res << "\n");
 	  return res;
@@ -2818,6 +2872,7 @@ public:
 	left.m_potential = std::move(meet_pi);
 	left.m_unstable.clear();
 	left.m_is_bottom = false;
+	left.recover_bounds_after_meet();
 	
 	CRAB_LOG("octagon", crab::outs() << "Result meet:\n" << left << "\n");
       };
